@@ -15,7 +15,7 @@ CLAIMED = {
             "equal reported keys and values (= equal fingerprints) have equal outcomes, o2 being o1 perturbed in one slot (thorough: two "
             "slots / fully independent); (L3) on one long-lived graph with the real Cached/MemoryCache/handlers/Dataset._composed, the "
             "history o_a, o_b, o_a returns what the same graph returns with caching off. Unbounded ints, symbolic presence/shape.",
-            _T + "graphs are an enumerated catalog (41 specs); stub S1 abstracts json bytes in L3 (discharged by C03 lemma J); histories of length 3."),
+            _T + "graphs are an enumerated catalog (64 specs, engine/graphs.py); stub S1 abstracts json bytes in L3 (discharged by C03 lemma J); histories of length 3."),
     "C02": ("DESIGN.md 7/C02",
             "Bounded symbolic model checking of memoization effectiveness on one long-lived graph per cached catalog graph: history o_a, "
             "o_a' (extra unmentioned key, permuted top-level order), o_b (one slot perturbed), o_a; body/effect recorders; z3 decides the "
@@ -34,7 +34,7 @@ CLAIMED = {
     "C05": ("DESIGN.md 7/C05",
             "Differential symbolic model checking: for each catalog graph the real evaluation is compared with an independent eager "
             "reference interpreter for every dictionary over the graph's universe (unbounded ints, presence/shape symbolic).",
-            _T + "graphs enumerated (44 specs); the reference interpreter (engine/catalog.py, engine/refsem.py) is trusted."),
+            _T + "graphs enumerated (64 specs); the reference interpreter (engine/catalog.py, engine/refsem.py) is trusted."),
     "C06": ("DESIGN.md 7/C06",
             "Same runs as C05 with recording bodies: z3 decides, for every dictionary, that the bodies run are a subset of those the "
             "lazy reference needs, in dependency order, and that nothing runs at construction.",
@@ -71,13 +71,13 @@ CLAIMED = {
             "every helper of labrea.functions against the Python operation with recording operands / symbolic ints / symbolic membership.",
             _T + "k <= 4 quick; helper list enumerated by reflection (a helper without a harness fails the check)."),
     "C14": ("DESIGN.md 7/C14",
-            "Bounded model checking of the runtime stack against a handler-map stack model: every sequence of 3 (thorough: 4, 5) operations "
-            "out of 10, thread with/without a runtime, all request types served after every step, identity of the current runtime.",
+            "Bounded model checking of the runtime stack against a handler-map stack model: every sequence of 3 (thorough: 4, and 5 over a reduced alphabet) operations "
+            "out of 11, thread with/without a runtime, all request types served after every step, identity of the current runtime.",
             _T + "the solver's role is exhaustive enumeration of operation vectors; no value reasoning."),
     "C15": ("DESIGN.md 7/C15",
             "Bounded model checking of real threads under a deterministic scheduler: the schedule (start thread + context-switch offsets) is "
             "the symbolic variable; operation-, line- and bytecode-level yield points in runtime.py / overload.py / dataset.py / cache.py.",
-            _T + "the solver only enumerates schedule vectors; <= 4 switches at operation level, 1 (thorough 2) at line/bytecode level; GIL "
+            _T + "the solver only enumerates schedule vectors; <= 3 (thorough 4) switches at operation level, 1-2 at line/bytecode level; thread death + later threads; GIL "
                  "atomicity of single bytecodes assumed; cooperative locks replace threading.Lock."),
     "C16": ("DESIGN.md 7/C16",
             "Bounded symbolic model checking of the feature switches: 2-step (thorough 3-step) histories on one long-lived graph over the "
